@@ -826,7 +826,10 @@ func checkGRPCStatus(headers http.Header, printer internal.Printer) { //nolint:g
 	if statusProto.Code == 0 && len(statusProto.Details) > 0 {
 		printer.Printf("trailers include 'grpc-status-details-bin' value with zero/okay 'grpc-status' and non-empty details")
 	}
-	if msg != nil && statusProto.Message != *msg {
+	// Leading and trailing whitespace is not part of an HTTP field value (it is stripped from the
+	// lines of a gRPC-Web trailer block above and by HTTP/1.1 parsers), so a message that starts
+	// or ends with a blank legitimately arrives without it.
+	if msg != nil && strings.Trim(statusProto.Message, " \t") != strings.Trim(*msg, " \t") {
 		printer.Printf("trailers include 'grpc-status-details-bin' value that disagrees with 'grpc-message' value: %q != %q", statusProto.Message, *msg)
 	}
 }
